@@ -134,6 +134,10 @@ fn resolve_inside(root: &Path, path: &Path, create_dirs: bool) -> Result<PathBuf
 pub(crate) fn verif_join_suffix<P: AsRef<Path>>(path: &Path, suffix: P) -> PathBuf {
     join_suffix(path, suffix)
 }
+#[cfg(sccache_verif)]
+pub(crate) fn verif_resolve_inside(root: &Path, path: &Path, create_dirs: bool) -> Result<PathBuf> {
+    resolve_inside(root, path, create_dirs)
+}
 
 #[derive(Debug)]
 struct OverlaySpec {
